@@ -1,0 +1,154 @@
+//! Verification seams for the deterministic-simulation harness in `/verif`.
+//!
+//! Compiled only with `--cfg entrait_verif` (never by a normal build, never by
+//! a cargo feature), so shipped behaviour is unchanged. Two things live here:
+//!
+//! * [`point`]: a cooperative scheduling / fault point. The harness installs a
+//!   hook; without one this is a no-op.
+//! * [`expand`]: a mirror of `crate::invoke` and the four
+//!   `#[proc_macro_attribute]` wrappers that works on `proc_macro2` token
+//!   streams, so the macro can be driven outside of rustc. Everything below
+//!   the dispatch (`Input`, the attr parsers, `entrait_fn`, `entrait_trait`,
+//!   `entrait_impl`, `set_fallbacks`, ...) is the real code.
+
+use proc_macro2::TokenStream;
+use std::sync::OnceLock;
+
+use crate::input::Input;
+use crate::opt::Opts;
+use crate::{entrait_fn, entrait_impl, entrait_trait, set_fallbacks};
+
+pub type Hook = fn(&'static str, usize);
+
+static HOOK: OnceLock<Hook> = OnceLock::new();
+
+/// Install the process-wide point hook (first caller wins).
+pub fn install_hook(hook: Hook) {
+    let _ = HOOK.set(hook);
+}
+
+/// A scheduling / fault point. `detail` is a small number the harness may use
+/// as a reach probe (e.g. how many identifiers were already taken).
+#[inline]
+pub fn point(id: &'static str, detail: usize) {
+    if let Some(hook) = HOOK.get() {
+        hook(id, detail)
+    }
+}
+
+/// The macro entry points, by name.
+pub const VARIANTS: [&str; 4] = [
+    "entrait",
+    "entrait_export",
+    "entrait_unimock",
+    "entrait_export_unimock",
+];
+
+/// What one macro invocation produced.
+pub struct Expansion {
+    /// The tokens handed back to the compiler (`compile_error!` on rejection).
+    pub output: TokenStream,
+    /// Whether the invocation asked for the expansion to be printed (`debug`).
+    pub debug: bool,
+    /// Whether the macro rejected the input.
+    pub rejected: bool,
+}
+
+fn opts_modifier(variant: &str) -> impl FnOnce(&mut Opts) + '_ {
+    move |opts: &mut Opts| match variant {
+        "entrait" => {}
+        "entrait_export" => set_fallbacks([&mut opts.export]),
+        "entrait_unimock" => set_fallbacks([&mut opts.unimock]),
+        "entrait_export_unimock" => set_fallbacks([&mut opts.export, &mut opts.unimock]),
+        other => panic!("unknown macro variant {other}"),
+    }
+}
+
+fn rejected(err: syn::Error) -> Expansion {
+    Expansion {
+        output: err.into_compile_error(),
+        debug: false,
+        rejected: true,
+    }
+}
+
+/// Mirror of `crate::invoke` (lib.rs), token for token, with `syn::parse2` in
+/// place of `syn::parse_macro_input!`.
+pub fn expand(variant: &str, attr: TokenStream, input: TokenStream) -> Expansion {
+    point("invoke::entry", 0);
+    let opts_modifier = opts_modifier(variant);
+
+    let input = match syn::parse2::<Input>(input) {
+        Ok(input) => input,
+        Err(err) => return rejected(err),
+    };
+    point("invoke::input_parsed", 0);
+
+    let (result, debug) = match input {
+        Input::Fn(input_fn) => {
+            let mut attr = match syn::parse2::<entrait_fn::input_attr::EntraitFnAttr>(attr) {
+                Ok(attr) => attr,
+                Err(err) => return rejected(err),
+            };
+            opts_modifier(&mut attr.opts);
+            point("invoke::attr_parsed", 1);
+
+            (
+                entrait_fn::entrait_for_single_fn(&attr, input_fn),
+                attr.opts.debug_value(),
+            )
+        }
+        Input::Mod(input_mod) => {
+            let mut attr = match syn::parse2::<entrait_fn::input_attr::EntraitFnAttr>(attr) {
+                Ok(attr) => attr,
+                Err(err) => return rejected(err),
+            };
+            opts_modifier(&mut attr.opts);
+            point("invoke::attr_parsed", 2);
+
+            (
+                entrait_fn::entrait_for_mod(&attr, input_mod),
+                attr.opts.debug_value(),
+            )
+        }
+        Input::Trait(item_trait) => {
+            let mut attr = match syn::parse2::<entrait_trait::input_attr::EntraitTraitAttr>(attr) {
+                Ok(attr) => attr,
+                Err(err) => return rejected(err),
+            };
+            opts_modifier(&mut attr.opts);
+            point("invoke::attr_parsed", 3);
+            let debug = attr.opts.debug.map(|opt| *opt.value()).unwrap_or(false);
+
+            (entrait_trait::output_tokens(attr, item_trait), debug)
+        }
+        Input::Impl(input_impl) => {
+            let mut attr =
+                match syn::parse2::<entrait_impl::input_attr::EntraitSimpleImplAttr>(attr) {
+                    Ok(attr) => attr,
+                    Err(err) => return rejected(err),
+                };
+            opts_modifier(&mut attr.opts);
+            point("invoke::attr_parsed", 4);
+            let debug = attr.opts.debug.map(|opt| *opt.value()).unwrap_or(false);
+
+            (
+                entrait_impl::output_tokens_for_impl(attr, input_impl),
+                debug,
+            )
+        }
+    };
+    point("invoke::expanded", 0);
+
+    let (output, rejected) = match result {
+        Ok(token_stream) => (token_stream, false),
+        Err(err) => (err.into_compile_error(), true),
+    };
+    point("invoke::return", 0);
+
+    Expansion {
+        output,
+        debug,
+        rejected,
+    }
+}
